@@ -259,8 +259,9 @@ def finish(rep, facts, seed=0):
         "wall_s": round(wall, 3),
         "violations": len(viol),
     }
-    os.makedirs(os.path.join(VERIF, "evidence"), exist_ok=True)
-    with open(os.path.join(VERIF, "evidence", rep.prop + ".json"), "w") as fh:
+    evdir = os.environ.get("VERIF_EVIDENCE_DIR") or os.path.join(VERIF, "evidence")          # the corpus runners divert evidence of patched trees
+    os.makedirs(evdir, exist_ok=True)
+    with open(os.path.join(evdir, rep.prop + ".json"), "w") as fh:
         json.dump(ev, fh, indent=1, sort_keys=False)
         fh.write("\n")
     print("%s: %d rule instances (%d distinct non-trivial) over %d functions; %d violation(s), %d known finding(s); %.1fs"
